@@ -244,6 +244,38 @@ def check_case(ctx, case, workload):
             return
         strings.append(s)
     _last[:] = [dc]
+    if rng.random() < 0.3:
+        # the flattened chain rendered: one level, mother and the multiset of leaves (what flatten leaves behind in its own book-keeping is no daughter)
+        ctx.hit("flattened-chain-rendered")
+        okf, sf = ctx.guard("descriptor:flattened", wit, lambda: dc.flatten().to_string())
+        contracts.drain()
+        if okf:
+            leaves, _bf = chains.ref_leaves(types, m, set())
+            try:
+                gotf = chains.read_descriptor(sf)
+            except ValueError as e:
+                gotf = ("unreadable", str(e))
+            wantf = chains.ref_tree({m: [1.0, sorted(leaves.elements())]}, m)
+            if gotf != wantf:
+                ctx.violate("descriptor:flattened-chain", f"flatten().to_string() = {sf!r}, expected mother {m} and leaves {sorted(leaves.elements())}", {**wit, "descriptor": sf})
+    if rng.random() < 0.2:
+        # the same tree with its final states given as mappings name -> count, one of them carrying a name with count zero (no daughter at all)
+        from decaylanguage import DecayChain, DecayMode  # noqa: PLC0415
+
+        ctx.hit("final-states-given-as-mappings-with-a-zero-count")
+
+        def as_mappings():
+            dec = {}
+            for k in names:
+                c = dict(Counter(types[k][1]))
+                c[rng.choice(["pi0", "gamma", "K_L0", "nu_e"]) + "_absent"] = 0
+                dec[k] = DecayMode(types[k][0], c, model="PHSP")
+            return DecayChain(m, dec).to_string()
+
+        okz, sz = ctx.guard("descriptor:mappings", wit, as_mappings)
+        contracts.drain()
+        if okz and sz != strings[0] and pi == 0:
+            ctx.violate("descriptor:zero-count-name-rendered-or-multiplicity-lost", f"{sz!r} from mappings with a zero count, {strings[0]!r} from lists", wit)
     ctx.hit("orders-compared", len(strings))
     ctx.mon("C13.direct.order_independent")
     if len(set(strings)) != 1:
